@@ -195,6 +195,21 @@ fn save_violation(chk: &mut Check, sub: &str, sig: &str, msg: &str, spec: &AppSp
         *chk.ev.known_hits.entry(sig.to_string()).or_insert(0) += 1;
         return;
     }
+    // A crash of the compiler only counts once it is reproduced by a run that has a workspace for itself: under load the
+    // documentation step of a compiler process that shares its workspace with siblings can fail, and pavexc then stops
+    // at an internal assertion ("the JSON documentation ... has already been generated") that says nothing about the
+    // blueprint. (Crashes that depend on the blueprint reproduce; PX_NO_CONFIRM=1 skips the re-run.)
+    if let Some(at) = sig.find("panic:") {
+        if std::env::var("PX_NO_CONFIRM").is_err() && !chk.settings.replay.is_some() {
+            let psig = &sig[at..];
+            let lane = lane("shrink");
+            let reproduced = (0..2).any(|_| matches!(round::verdict_alone(&lane, spec), Ok(v) if v.panicked && v.signature() == psig));
+            if !reproduced {
+                chk.ev.label(&format!("crash-not-reproduced-when-run-alone:{psig}"));
+                return;
+            }
+        }
+    }
     let f = Fail::new(sig, msg);
     chk.violation(sub, &f, &json!({"spec": spec, "extra": extra}));
 }
